@@ -43,13 +43,14 @@ CLAIMED = {
               "All directive sequences of the quantifier against a reference fold, each run twice.",
               _CFG_NOTE, "Lean 4 proof (define fold, unbounded) + exhaustive sequence enumeration against a reference fold", "§0.2, §7 C05"),
     "C06": _c("PROVED: C06_include_eq_inline (any lines A F B with F balanced: same events, definitions, open sections or both rejected; any "
-              "context state), unbalanced fragments rejected. Real vs real: inline text vs 1..3 cuts (nested; same/sub/parent dir; through a "
-              "%define-d absolute dir/URL; one fragment reached twice / diamond), four ways of naming the top resource, plus model.",
+              "context state), C06_load_include_eq_inline / _rejected_iff (the LOADER gives the same value tree or rejects both; nested and $-argument forms), unbalanced fragments rejected. Real vs real: inline text vs 1..3 cuts (nested; same/sub/parent dir; through a "
+              "%define-d absolute dir/URL; one fragment reached twice / diamond), four ways of naming the top resource, entry by path / URL / open file (own name, relative name, path as URL, scratch copy + URL), fragment names differing from the includer only in case, plus model.",
               _CFG_NOTE + " URL resolution table computed with urllib only.", "Lean 4 proof (include = inline) + metamorphic real-vs-real + correspondence", "§0.2, §7 C06"),
     "C07": _c("PROVED: C07_no_internal (the loader model never ends in an internal exception, for all texts, override lists and include graphs, "
               "under schemaWF / well-formed packages / a resolvable environment of <= 64 resources; a closed counterexample for each hypothesis), "
-              "C07_schemaless_no_internal. Direct oracle on the real code: mutated texts, unmasked faults, mutated overrides, include graphs, 38 "
-              "%include argument classes, validator status and message count in several file orders.",
+              "C07_schemaless_no_internal, and for the validator command C07_validator_exit / _status_zero_iff / _on_loads (status 0 or 1 and one message per "
+              "invalid file, derived from C07_no_internal on a model of its loop). Direct oracle on the real code: mutated texts, unmasked faults, mutated overrides, "
+              "include graphs, 50 %include argument classes by path and from a stream without URL, validator runs in several file orders vs the model loop.",
               _CFG_NOTE, "Lean 4 proof (no internal outcome, unbounded) + fault/mutation exploration of the real entry points", "§0.2, §7 C07"),
     "C08": _c("PROVED (25 theorems): a failing parse has a unique culprit (resource, line) in this or an included resource; every line-bound error "
               "carries that line and URL (exact exceptions: %import errors, refused %include); the <type/> form behaves as <type></type> on errors; "
@@ -79,7 +80,7 @@ CLAIMED = {
               "extends chains, prefixes 3 deep, 1..3 base schemas incl. a chain of three, components once / repeated / diamond / mutually importing / self-importing.",
               "trusted: as C10; the mechanical expansion is computed by the harness from the statement.",
               "Lean 4 proof (composition lemmas on the model) + metamorphic real-vs-real + model correspondence", "§0.2, §7 C11"),
-    "C12": _c("PROVED (32 theorems): C12_slot_admits_iff (an abstract slot admits a header iff it is the first claimant and the type is a recorded "
+    "C12": _c("PROVED (50 theorems): text level with %import lines anywhere at top level: the loader accepts iff the text conforms to the schema in force at each position and returns denoteI (C12_text_accept_iff_conformsI, C12_text_value_eq_denoteI);  C12_slot_admits_iff (an abstract slot admits a header iff it is the first claimant and the type is a recorded "
               "implementer), fixed-name slots, extender is not implementer, %import idempotent / adds exactly the declared implementers / refused "
               "classes / visible only after its line; the this-load-only clause is false on the pinned tree (closed counterexample = known finding). "
               "Exploration: worlds with abstract '*' and fixed-name slots, packages (also importing each other), %import through %define, 4-load histories.",
@@ -97,10 +98,10 @@ CLAIMED = {
               "references / keys, <t/> = <t></t>, permutation of lines of different keys (adjacent swaps, general), at line, tree and load level. "
               "Canonical vs rewritten rendering of the same item tree, real vs real, incl. shipped components and re-definitions.",
               _CFG_NOTE, "Lean 4 proof (layout invariance, unbounded) + metamorphic real-vs-real", "§0.2, §7 C15"),
-    "C16": _c("PROVED (16 theorems): the handler list = post-order of handler-bearing items with the values denote puts there (C16_handlers_postorder, "
+    "C16": _c("PROVED (19 theorems): the handler list = post-order of handler-bearing items with the values denote puts there (C16_handlers_postorder, "
               "text level too), its length, and for a hand-written model of CompositeHandler.__call__: exactly once, None skipped, all-or-nothing. "
-              "Exploration on the real code: post-order reference, None, missing names, any two spellings of one name, loads with overrides.",
-              _CFG_NOTE + " The small model of __call__ lives in the proof files and is tied to the code by the exploration only.",
+              "Exploration on the real code: post-order reference, None, callables whose truth value is False, missing names, any two spellings of one name, loads with overrides.",
+              _CFG_NOTE + " The small model of __call__ lives in a proof file and is tied to the code through the driver (random handler maps, verdict and call sequence compared).",
               "Lean 4 proof (post-order, unbounded) + reference post-order oracle on the real handler", "§0.2, §7 C16"),
     "C17": _c("PROVED (14 theorems): C17_roundtrip (printing any well-formed tree and loading it gives the tree back up to key order; literally for "
               "sorted keys), C17_print_stable, C17_loaded_is_wf, value round trip through '$$', %define/%include refused; counterexamples for "
@@ -114,17 +115,19 @@ CLAIMED = {
               "entry points x every cwd, reused loaders, fragment-carrying references rejected in every position.",
               "trusted: Lean kernel; extract.py; regex semantics; urllib.parse/pathname2url and the OS (explored, not proved).",
               "Lean 4 proof (URL algebra) + exhaustive correspondence + scratch-tree exploration", "§0.2, §7 C18"),
-    "C19": _c("PROVED: C19_all_closed / C19_open_close_count over a model of the `with openResource` discipline for every resource graph and every "
-              "fault set. Real traces (tracking Resource class, wrapped urlopen) vs the model for include trees x every single failure point; one "
-              "loader object reused and the corrected files re-loaded after each failure; schema graphs and %import by direct oracle.",
-              "trusted: Lean kernel; the hand-written model ZCV/Model/Resources.lean tied by trace correspondence; in-process instrumentation of urlopen/Resource.",
+    "C19": _c("PROVED: C19_all_closed / C19_open_close_count over a model of the `with openResource` discipline for every include tree and every "
+              "fault set; on the graph model (schema graphs with several bases, <import>, components, %import, the loaders' state) C19_all_closed2, "
+              "C19_stream_closed_at_once, C19_active_restored (every outcome), C19_failed_import_restores, C19_marks_justified, C19_no_fault_ok2, and closed "
+              "counterexamples for what does not hold. Real traces (tracking Resource class, wrapped urlopen) vs the model for include trees x every single failure point; one "
+              "loader object reused and the corrected files re-loaded after each failure; random resource graphs with single faults followed by the corrected files on the same loader: outcome, events and loader state vs the graph model; failing components; loads ended by KeyboardInterrupt/SystemExit.",
+              "trusted: Lean kernel; the hand-written models ZCV/Model/Resources.lean and Resources2.lean tied by trace correspondence; in-process instrumentation of urlopen/Resource.",
               "Lean 4 proof (well-bracketed traces for all graphs/faults) + fault enumeration with trace correspondence", "§0.2, §7 C19"),
-    "C20": _c("PROVED (30 theorems): level table/range/case-insensitivity, the registry invariants for ALL operation sequences (reopen/close act on exactly the "
+    "C20": _c("PROVED (60 theorems): level table/range/case-insensitivity, the registry invariants for ALL operation sequences (reopen/close act on exactly the "
               "live handlers), the complete handler decision table, factory idempotence and logger set-up on a model of factory.py/logger.py, and for the "
               "classic style: accepted iff every item is a known field with a conversion valid for its type, accepted => the formatter builds and an ordinary "
-              "record formats without raising (model of CPython's str % mapping; compared with the real loader incl. exception class). Exploration of the real component: level spellings, logfile option "
+              "record formats without raising (model of CPython's str % mapping incl. the 4300-digit int limit; compared with the real loader incl. exception class); the same for the template and safe-template styles (model of string.Template and logging's validation). Exploration of the real component: level spellings, logfile option "
               "matrix vs model, produced loggers, factory idempotence, format strings of four styles, registry operation sequences vs model.",
-              "trusted: Lean kernel; extract.py; models ZCV/Model/Logger.lean tied by correspondence; rendering by logging/str.format/string.Template, streams, files, weakref timing are outside the model.",
+              "trusted: Lean kernel; extract.py; models ZCV/Model/Logger.lean tied by correspondence; rendering by logging/str.format, streams, files, weakref timing are outside the model.",
               "Lean 4 proof (decision logic) + exploration of the real component with model correspondence", "§0.2, §7 C20"),
 }
 
